@@ -38,7 +38,8 @@ def family(fn):
 
 
 DT = 1 / 16
-H1, H2 = 1e-4, 2.5e-5
+LADDER = (1e-4, 2.5e-5, 6.25e-6, 1.5625e-6)   # central-difference steps, ratio 4
+H1, H2 = LADDER[0], LADDER[1]
 CRITERIA = ("erm", "es", "qcvar", "entropic_loss", "isoelastic", "oce", "mse", "l1")
 FMODES = ("vec", "step", "prev", "mo_vec", "mo_prev")
 MODELS = ("mlp", "linear")
@@ -197,26 +198,25 @@ def stepwise_expected(fm):
     return fm in ("step", "prev", "mo_prev")
 
 
-def tolerances(w, case, g_scale, fmax):
-    """Derived bounds (see fd_ref docstring).  M3: third derivatives of the loss along coordinate axes
-    are bounded by 2e3 * max(|gradient|, |loss|) on the stencils (tanh networks with |weights| < 1, features
-    and prices of order one, at most T=6 recurrent steps)."""
-    scale = max(g_scale, fmax, 1e-12)
-    m3 = 2e3 * scale
-    trunc1 = H1 * H1 * m3 / 6
-    trunc2 = H2 * H2 * m3 / 6
-    r1, r2 = fd_ref.rounding_bound(fmax, H1), fd_ref.rounding_bound(fmax, H2)
+def tolerances(case, g_scale, fmax, level):
+    """Derived bounds for the step pair (LADDER[level], LADDER[level+1]) (see fd_ref docstring).
+    M3: third derivatives of the loss along coordinate axes are bounded by 2e3 * (largest first derivative)
+    on the stencils (tanh networks with |weights| < 1, features and prices of order one, at most 6 recurrent
+    steps; observed ratio is about 4)."""
+    ha, hb = LADDER[level], LADDER[level + 1]
+    m3 = 2e3 * max(g_scale, 1e-12)
+    ra, rb = fd_ref.rounding_bound(fmax, ha), fd_ref.rounding_bound(fmax, hb)
     extra = 0.0
     if case["criterion"] == "qcvar":
         # the loss is evaluated at omega_hat with |omega_hat - omega*| <= p (bisection precision
         # p = 1e-6 * 10^int(log10(range)) <= 1e-6 here), so the computed function differs from the smooth
-        # envelope by at most lam*p^2 (second-order in the optimality gap), a piecewise-constant wobble that a
+        # envelope by at most lam*p^2 (second order in the optimality gap), a piecewise-constant wobble that a
         # central difference divides by 2h; back-propagation adds |dL/d omega| * |d omega_hat/d theta| <= 2*lam*p*|d range|.
         lam, p = 5.0, 1e-6
-        extra = lam * p * p / H2 + 2 * lam * p * g_scale * 4
-    agree = (trunc1 - trunc2) + r1 + r2 + 2 * extra          # |D(h1) - D(h2)| for a smooth coordinate
-    # Richardson value: O(h^4) truncation (negligible) + amplified rounding + wobble
-    acc = (16 * r2 + r1) / 15 + 2 * extra + 1e-3 * (trunc1 + trunc2)
+        extra = lam * p * p / hb + 2 * lam * p * g_scale * 4
+    agree = (ha * ha - hb * hb) * m3 / 6 + ra + rb + 2 * extra   # |D(ha) - D(hb)| for a coordinate smooth on the ha-stencil
+    # Richardson value: O(h^4) truncation (bounded by 1e-3 of the O(h^2) terms) + amplified rounding + wobble
+    acc = (16 * rb + ra) / 15 + 2 * extra + 1e-3 * (ha * ha + hb * hb) * m3 / 6
     return agree, acc
 
 
@@ -257,38 +257,62 @@ def grad_fd(ctx, block):
         if not math.isfinite(f0) or abs(f0 - float(loss)) > 1e-12 * max(1.0, abs(f0)):
             ctx.violation(site, "loss_value_depends_on_grad_mode", "compute_loss(enable_grad=False) differs from compute_loss()",
                           observed=f0, expected=float(loss), block=mini)
-        d1, fm1 = fd_ref.central_differences(f, w.params, H1)
-        d2, fm2 = fd_ref.central_differences(f, w.params, H2)
+        d1, fm1 = fd_ref.central_differences(f, w.params, LADDER[0])
+        d2, fm2 = fd_ref.central_differences(f, w.params, LADDER[1])
         coords = fd_ref.coordinates(w.params)
+        pdict = dict(w.params)
         fmax = max(fm1, fm2, abs(f0))
         g_scale = max(max(abs(x) for x in g_ad), max(abs(x) for x in d2))
-        agree, acc = tolerances(w, case, g_scale, fmax)
-        n_smooth = n_kink = 0
+        n_smooth = n_kink = n_undecided = 0
+        extra_evals = 0
         worst = 0.0
         for i, (name, j) in enumerate(coords):
-            a, b1, b2 = g_ad[i], d1[i], d2[i]
-            if not (math.isfinite(a) and math.isfinite(b1) and math.isfinite(b2)):
+            a = g_ad[i]
+            ds = [d1[i], d2[i]]
+            if not all(math.isfinite(x) for x in [a] + ds):
                 ctx.violation(site, f"nonfinite:{case['criterion']}", f"non-finite gradient or loss at coordinate {name}[{j}]",
-                              observed=[a, b1, b2], expected="finite", block=mini)
+                              observed=[a] + ds, expected="finite", block=mini)
                 continue
-            if abs(b1 - b2) <= agree:
-                n_smooth += 1
-                ref = fd_ref.richardson(b1, b2, H1, H2)
+            verdict = None
+            level = 0
+            while True:
+                agree, acc = tolerances(case, g_scale, fmax, level)
+                ha, hb = LADDER[level], LADDER[level + 1]
+                clean = abs(ds[level] - ds[level + 1]) <= agree
+                ref = fd_ref.richardson(ds[level], ds[level + 1], ha, hb)
                 tol = 1e-6 * abs(ref) + acc
-                err = abs(a - ref)
-                worst = max(worst, err / (abs(ref) + g_scale * 1e-3))
-                if err > tol:
-                    part = name.split(".")[0]
-                    cls = f"gradient_mismatch:{part}:{_kind(case)}"
-                    ctx.violation(site, cls, f"back-propagated d loss/d {name}[{j}] = {a!r} but central differences give {ref!r} "
-                                  f"(tolerance {tol:.3g}; criterion={case['criterion']}, fm={case['fm']}, cost={case['cost']}, "
-                                  f"H={case['H']}, model={case['model']}, paths={case['paths']})",
-                                  observed=a, expected=ref, block=mini)
-            else:
-                # kink inside the stencil: one-sided slopes at the smaller step bracket any valid (sub)gradient
+                if clean and abs(a - ref) <= tol:
+                    verdict = "smooth" if level == 0 else "resolved"
+                    worst = max(worst, abs(a - ref) / (abs(ref) + g_scale * 1e-3))
+                    break
+                if level + 2 >= len(LADDER):
+                    verdict = "mismatch" if clean else "undecided"
+                    break
+                # the pair is contaminated by a kink inside the wider stencil, or the gradient is wrong:
+                # decide on the next finer pair
+                level += 1
+                d_next, _ = fd_ref.central_difference_one(f, pdict[name], j, LADDER[level + 1])
+                extra_evals += 2
+                ds.append(d_next)
+            if verdict == "smooth":
+                n_smooth += 1
+            elif verdict == "resolved":
                 n_kink += 1
-                lo, hi = _one_sided(f, w.params, name, j, H2)
-                slack = acc + 1e-4 * max(abs(lo), abs(hi)) + (H2 * 2e3 * max(g_scale, fmax))
+            elif verdict == "mismatch":
+                part = name.split(".")[0]
+                ctx.violation(site, f"gradient_mismatch:{part}:{_kind(case)}",
+                              f"back-propagated d loss/d {name}[{j}] = {a!r} but central differences (h={ha:g},{hb:g}) give {ref!r} "
+                              f"(tolerance {tol:.3g}; criterion={case['criterion']}, fm={case['fm']}, cost={case['cost']}, "
+                              f"H={case['H']}, model={case['model']}, paths={case['paths']})",
+                              observed=a, expected=ref, block=mini)
+            else:
+                # kink closer than the finest step: the derivative is not decided by differences; any valid
+                # (sub)gradient lies between the one-sided slopes
+                n_kink += 1
+                n_undecided += 1
+                lo, hi = _one_sided(f, w.params, name, j, LADDER[-1])
+                extra_evals += 3
+                slack = acc + 1e-4 * max(abs(lo), abs(hi)) + LADDER[-1] * 2e3 * g_scale
                 if not (min(lo, hi) - slack <= a <= max(lo, hi) + slack):
                     ctx.violation(site, f"gradient_outside_one_sided_slopes:{_kind(case)}",
                                   f"non-smooth coordinate {name}[{j}]: back-propagated value {a!r} is not between the one-sided slopes {lo!r}, {hi!r}",
@@ -300,7 +324,8 @@ def grad_fd(ctx, block):
         ctx.add("configurations", 1)
         ctx.add("smooth_coordinates", n_smooth)
         ctx.add("nonsmooth_coordinates", n_kink)
-        ctx.add("loss_evaluations", 4 * n + 2)
+        ctx.add("nonsmooth_undecided_coordinates", n_undecided)
+        ctx.add("loss_evaluations", 4 * n + 2 + extra_evals)
         ctx.outcome((case["criterion"], case["fm"], round(f0, 9)))
         # the evaluation mode really is the one the configuration names
         if len(ctx.samples) < 4 and case["H"] == 2 and case["fm"] in ("prev", "mo_prev") and case["cost"] > 0:
@@ -308,7 +333,6 @@ def grad_fd(ctx, block):
             ctx.sample({"family": "grad_fd", "case": case, "loss": f0, "n_paths": w.N, "n_steps": w.T,
                         "coordinate": list(coords[i]), "backprop": g_ad[i], "central_h1": d1[i], "central_h2": d2[i],
                         "worst_relative_mismatch_in_config": worst})
-        ctx.info["max_relative_mismatch"] = max(ctx.info.get("max_relative_mismatch", 0.0), worst)
 
 
 def _kind(case):
@@ -445,7 +469,12 @@ def run(ctx):
         ctx.run_parallel("no_graph", ngb, workers=min(_workers(), len(ngb)))
     n_s = ctx.counters.get("smooth_coordinates", 0)
     n_k = ctx.counters.get("nonsmooth_coordinates", 0)
-    if n_k * 100 >= max(1, n_s + n_k):
+    n_u = ctx.counters.get("nonsmooth_undecided_coordinates", 0)
+    ctx.counters.setdefault("nonsmooth_coordinates", 0)
+    ctx.counters.setdefault("nonsmooth_undecided_coordinates", 0)
+    # coordinates with a kink inside the coarse stencil are decided on a finer pair (counted above); the ones a
+    # kink closer than the finest step leaves undecided must stay below 1 % (and all non-smooth ones below 5 %)
+    if n_u * 100 >= max(1, n_s + n_k) or n_k * 20 >= max(1, n_s + n_k):
         ctx.violation("C14.harness", "too_many_nonsmooth_coordinates",
-                      f"{n_k} of {n_s + n_k} coordinates have a kink inside the stencil (>= 1 %): the finite-difference oracle is not decisive",
-                      observed=n_k, expected="< 1 %", block={"cases": []}, family="grad_fd")
+                      f"{n_u} undecided / {n_k} non-smooth of {n_s + n_k} coordinates: the finite-difference oracle is not decisive",
+                      observed=[n_u, n_k], expected="< 1 % undecided, < 5 % non-smooth", block={"cases": []}, family="grad_fd")
